@@ -35,6 +35,7 @@ def stepLine (st : DState) (line : String) : DState × String :=
   | ["mon.c01.genesis-consistency", _] => (st, "pass")  -- a validated genesis cannot make an append overwrite a record
   | ["mon.c13.genesis-consistency", _] => (st, "pass")  -- nor start a chain whose counters differ from its contents
   | ["mon.c08.export-at-sequence-end"] => (st, "pass")  -- whatever state accepted operations reach, its export validates
+  | ["mon.c08.app-export"] => (st, "pass")  -- the application's export entry point (at height, zero-height) succeeds and carries the modules' export
   | ["mon.c08.utf8"] => (st, "pass")      -- what C08 demands; the implementation fails it (known finding F15)
   | ["genesis.roundtrip"] =>
     -- identity on the modelled state (Properties/C08), up to the representation of "no tokens": a class
@@ -50,6 +51,7 @@ def stepLine (st : DState) (line : String) : DState × String :=
   | ["mon.c17.endblock-not-halted"] => (st, "pass")  -- C17: crafted transactions cannot make the end-blocker panic
   | ["mon.c18.long-address", _] => (st, "pass")  -- string form round-trips for every admitted address length (C18)
   | ["mon.c13.offset-walk", _] => (st, "pass")  -- a walk that changes its page size still delivers every item (F25: the SDK's offset + limit wraps)
+  | ["mon.c07.send-disabled", _] => (st, "pass")  -- the bank's send switch guards messages, not the sink: what arrives is burned
   | ["mon.c07.invariant-check-period"] => (st, "pass")  -- invariant checks (genesis, inv-check-period) never halt on coins waiting to be burned
   | ["mon.c07.module-account-recipient"] => (st, "pass")  -- the transit module account cannot be squatted: the end-blocker never halts
   | ["mon.c07.endblock-movers"] => (st, "pass")   -- whatever reaches the burn address while the block ends is burned in that block
@@ -57,6 +59,7 @@ def stepLine (st : DState) (line : String) : DState × String :=
   | "mon.c14.pair" :: _ => (st, "pass")
   | "mon.c14.pair.utf8" :: _ => (st, "pass")
   | "mon.c03.utf8" :: _ => (st, "pass")
+  | ["mon.c11.genesis-key-spelling", _] => (st, "pass")   -- nor under a spelling variant of the identifier its document describes
   | "mon.c11.genesis-foreign-document" :: _ => (st, "pass")   -- the registry never holds a document about another DID   -- a proof made over other content is rejected: what C03 demands   -- two different messages never share sign bytes: what C14 demands
   | ["reset"] => ({ st with aol := {}, did := {}, pnft := {}, tx := {} }, "-")
   | ["now", n] =>
